@@ -7,7 +7,7 @@ from sa.astx import body_walk, call_attr, call_name, dotted, src
 from sa.effects import class_accesses
 from sa.selftest import Mutant, Silent
 from sa.source import methods
-from sa.props._lib_c import (all_funcs_of_class, assign_pairs, enclosing, eq_test, gfind, guarded_eq, guarded_ne, guarded_none, guarded_not_none,
+from sa.props._lib_c import (anchor_methods, section, all_funcs_of_class, assign_pairs, enclosing, eq_test, gfind, guarded_eq, guarded_ne, guarded_none, guarded_not_none,
                              is_const, is_none_test, may_mutate, must_pass, nested_defs, no_exc, parents, self_attr)
 
 PROPERTY = "C11"
@@ -58,564 +58,591 @@ def check(ctx):
     mod = ctx.mod(TASK)
     task = ctx.cls(TASK, "CooperativeTask")
     coop = ctx.cls(TASK, "Cooperator")
-    tm, cm = methods(task), methods(coop)
-    for name in ("pause", "resume", "stop", "_completeWith", "_checkFinish", "_oneWorkUnit", "whenDone", "__init__"):
-        ctx.need(tm.get(name), f"CooperativeTask.{name}")
-    for name in ("_addTask", "_removeTask", "_tasksWhileNotStopped", "_tick", "_reschedule", "stop", "coiterate", "start"):
-        ctx.need(cm.get(name), f"Cooperator.{name}")
+    tm = anchor_methods(ctx, TASK, task, ("pause", "resume", "stop", "_completeWith", "_checkFinish", "_oneWorkUnit", "whenDone", "__init__"))
+    cm = anchor_methods(ctx, TASK, coop, ("_addTask", "_removeTask", "_tasksWhileNotStopped", "_tick", "_reschedule", "stop", "coiterate", "start"))
     funcs = [("CooperativeTask", q, f) for q, f in all_funcs_of_class(task)] + [("Cooperator", q, f) for q, f in all_funcs_of_class(coop)]
 
     # ---- _checkFinish raises the stored state; pause/stop start with it -------------------------------------------
-    f = tm["_checkFinish"]
-    ctx.functions.add(f"{TASK}:CooperativeTask._checkFinish")
-    g = ctx.cfg(f)
-    q = f"{QT}._checkFinish"
-    tests = [t for t in g.ids(lambda n: n.kind == "test") if is_none_test(g.node(t).ast, "self._completionState") is not None]
-    ctx.check(bool(tests), "finished/check-raises", q, "_checkFinish no longer tests the completion state")
-    for t in tests:
-        lab = "F" if is_none_test(g.node(t).ast, "self._completionState") else "T"
-        s = [d for d, l in g.succ[t] if l == lab]
-        w = g.path(s, [g.exit], edge_ok=no_exc)
-        ctx.check(w is None, "finished/check-raises", ctx.construct(q, g.node(t).ast),
-                  "_checkFinish returns normally for a finished task: pause()/stop() operate on it instead of raising TaskFinished", witness=g.describe(w))
-    raises = g.ids(lambda n: n.kind == "stmt" and isinstance(n.ast, ast.Raise))
-    ctx.check(bool(raises) and all(src(g.node(r).ast.exc) == "self._completionState" for r in raises), "finished/raises-matching-state", q,
-              "the exception raised for a finished task is not the stored completion state (wrong TaskFinished subtype)")
-    for name, effects in (("pause", lambda x: _is_call(x, "self._cooperator._removeTask") or isinstance(x, ast.AugAssign)),
-                          ("stop", lambda x: _is_call(x, "self._completeWith"))):
-        f = tm[name]
-        ctx.functions.add(f"{TASK}:CooperativeTask.{name}")
+    with section(ctx, '_checkFinish raises the stored state; pause/stop start with it'):
+        f = tm["_checkFinish"]
+        ctx.functions.add(f"{TASK}:CooperativeTask._checkFinish")
         g = ctx.cfg(f)
-        checks = gfind(g, lambda x: _is_call(x, "self._checkFinish"))
-        eff = gfind(g, effects)
-        ctx.check(bool(eff), "finished/check-first", f"{QT}.{name} | <effects>", f"{name}() has lost its effect")
-        w = g.must_precede(checks, eff) if checks else [g.entry]
-        ctx.check(bool(checks) and w is None, "finished/check-first", f"{QT}.{name}",
-                  f"{name}() acts on the task before (or without) _checkFinish(): a finished task is paused/stopped again instead of raising",
-                  witness=g.describe(w))
+        q = f"{QT}._checkFinish"
+        tests = [t for t in g.ids(lambda n: n.kind == "test") if is_none_test(g.node(t).ast, "self._completionState") is not None]
+        ctx.check(bool(tests), "finished/check-raises", q, "_checkFinish no longer tests the completion state")
+        for t in tests:
+            lab = "F" if is_none_test(g.node(t).ast, "self._completionState") else "T"
+            s = [d for d, l in g.succ[t] if l == lab]
+            w = g.path(s, [g.exit], edge_ok=no_exc)
+            ctx.check(w is None, "finished/check-raises", ctx.construct(q, g.node(t).ast),
+                      "_checkFinish returns normally for a finished task: pause()/stop() operate on it instead of raising TaskFinished", witness=g.describe(w))
+        raises = g.ids(lambda n: n.kind == "stmt" and isinstance(n.ast, ast.Raise))
+        ctx.check(bool(raises) and all(src(g.node(r).ast.exc) == "self._completionState" for r in raises), "finished/raises-matching-state", q,
+                  "the exception raised for a finished task is not the stored completion state (wrong TaskFinished subtype)")
+        for name, effects in (("pause", lambda x: _is_call(x, "self._cooperator._removeTask") or isinstance(x, ast.AugAssign)),
+                              ("stop", lambda x: _is_call(x, "self._completeWith"))):
+            f = tm[name]
+            ctx.functions.add(f"{TASK}:CooperativeTask.{name}")
+            g = ctx.cfg(f)
+            checks = gfind(g, lambda x: _is_call(x, "self._checkFinish"))
+            eff = gfind(g, effects)
+            ctx.check(bool(eff), "finished/check-first", f"{QT}.{name} | <effects>", f"{name}() has lost its effect")
+            w = g.must_precede(checks, eff) if checks else [g.entry]
+            ctx.check(bool(checks) and w is None, "finished/check-first", f"{QT}.{name}",
+                      f"{name}() acts on the task before (or without) _checkFinish(): a finished task is paused/stopped again instead of raising",
+                      witness=g.describe(w))
 
     # ---- pause / resume: _pauseCount transitions coupled with membership --------------------------------------------
-    f = tm["pause"]
-    g = ctx.cfg(f)
-    q = f"{QT}.pause"
-    incs = g.ids(lambda n: n.kind == "stmt" and isinstance(n.ast, ast.AugAssign) and self_attr(n.ast.target, "_pauseCount"))
-    ctx.check(len(incs) == 1 and isinstance(g.node(incs[0]).ast.op, ast.Add) and is_const_num(g.node(incs[0]).ast.value, 1), "pause/count", q,
-              "pause() does not increment _pauseCount by exactly one")
-    rem = gfind(g, lambda x: _is_call(x, "self._cooperator._removeTask"))
-    ctx.check(bool(rem), "pause/leaves-runnable-set", q, "pause() never removes the task from the cooperator: a paused task keeps being advanced")
-    for n in rem:
-        key = ctx.construct(q, g.node(n).ast)
-        ok = guarded_eq(g, n, "self._pauseCount", 1) and bool(incs) and g.must_precede(incs, [n]) is None
-        if not ok:  # equivalent spelling: test the old value (== 0) before the increment
-            ok = guarded_eq(g, n, "self._pauseCount", 0) and bool(incs) and g.path(incs, [n]) is None and g.path([n], incs, edge_ok=no_exc) is not None
-        ctx.check(ok, "pause/leaves-runnable-set", key, "_removeTask is not tied to the 0->1 transition of _pauseCount (nested pause removes twice: ValueError, "
-                  "or the first pause does not remove)")
-        call = next(x for x in ast.walk(g.node(n).ast) if _is_call(x, "self._cooperator._removeTask"))
-        ctx.check(len(call.args) == 1 and src(call.args[0]) == "self", "pause/leaves-runnable-set", key, "_removeTask not applied to this task")
-    cnt_tests = [t for t in g.ids(lambda n: n.kind == "test") if eq_test(g.node(t).ast, "self._pauseCount", 1) is not None]
-    pre_tests = [t for t in g.ids(lambda n: n.kind == "test") if eq_test(g.node(t).ast, "self._pauseCount", 0) is not None and g.path([t], incs) is not None]
-    for t in pre_tests:
-        lab = "T" if eq_test(g.node(t).ast, "self._pauseCount", 0) else "F"
-        w = must_pass(g, [d for d, l in g.succ[t] if l == lab], rem, exc=False)
-        ctx.check(w is None, "pause/leaves-runnable-set", q + " | <count was 0>", "the first pause() can return with the task still runnable", witness=g.describe(w))
-    for i in (incs if not pre_tests else []):
-        s = [d for d, l in g.succ[i] if l != "exc"]
-        w = must_pass(g, s, rem + cnt_tests, exc=False)
-        ctx.check(w is None, "pause/leaves-runnable-set", q + " | <after increment>", "after the increment pause() can return without deciding about removal",
-                  witness=g.describe(w))
-    for t in cnt_tests:
-        lab = "T" if eq_test(g.node(t).ast, "self._pauseCount", 1) else "F"
-        s = [d for d, l in g.succ[t] if l == lab]
-        w = must_pass(g, s, rem, exc=False)
-        ctx.check(w is None, "pause/leaves-runnable-set", q + " | <count reaches 1>", "the first pause() can return with the task still runnable", witness=g.describe(w))
+    with section(ctx, 'pause / resume: _pauseCount transitions coupled with membership'):
+        f = tm["pause"]
+        g = ctx.cfg(f)
+        q = f"{QT}.pause"
+        incs = g.ids(lambda n: n.kind == "stmt" and isinstance(n.ast, ast.AugAssign) and self_attr(n.ast.target, "_pauseCount"))
+        ctx.check(len(incs) == 1 and isinstance(g.node(incs[0]).ast.op, ast.Add) and is_const_num(g.node(incs[0]).ast.value, 1), "pause/count", q,
+                  "pause() does not increment _pauseCount by exactly one")
+        rem = gfind(g, lambda x: _is_call(x, "self._cooperator._removeTask"))
+        ctx.check(bool(rem), "pause/leaves-runnable-set", q, "pause() never removes the task from the cooperator: a paused task keeps being advanced")
+        for n in rem:
+            key = ctx.construct(q, g.node(n).ast)
+            ok = guarded_eq(g, n, "self._pauseCount", 1) and bool(incs) and g.must_precede(incs, [n]) is None
+            if not ok:  # equivalent spelling: test the old value (== 0) before the increment
+                ok = guarded_eq(g, n, "self._pauseCount", 0) and bool(incs) and g.path(incs, [n]) is None and g.path([n], incs, edge_ok=no_exc) is not None
+            ctx.check(ok, "pause/leaves-runnable-set", key, "_removeTask is not tied to the 0->1 transition of _pauseCount (nested pause removes twice: ValueError, "
+                      "or the first pause does not remove)")
+            call = next(x for x in ast.walk(g.node(n).ast) if _is_call(x, "self._cooperator._removeTask"))
+            ctx.check(len(call.args) == 1 and src(call.args[0]) == "self", "pause/leaves-runnable-set", key, "_removeTask not applied to this task")
+        cnt_tests = [t for t in g.ids(lambda n: n.kind == "test") if eq_test(g.node(t).ast, "self._pauseCount", 1) is not None]
+        pre_tests = [t for t in g.ids(lambda n: n.kind == "test") if eq_test(g.node(t).ast, "self._pauseCount", 0) is not None and g.path([t], incs) is not None]
+        for t in pre_tests:
+            lab = "T" if eq_test(g.node(t).ast, "self._pauseCount", 0) else "F"
+            w = must_pass(g, [d for d, l in g.succ[t] if l == lab], rem, exc=False)
+            ctx.check(w is None, "pause/leaves-runnable-set", q + " | <count was 0>", "the first pause() can return with the task still runnable", witness=g.describe(w))
+        for i in (incs if not pre_tests else []):
+            s = [d for d, l in g.succ[i] if l != "exc"]
+            w = must_pass(g, s, rem + cnt_tests, exc=False)
+            ctx.check(w is None, "pause/leaves-runnable-set", q + " | <after increment>", "after the increment pause() can return without deciding about removal",
+                      witness=g.describe(w))
+        for t in cnt_tests:
+            lab = "T" if eq_test(g.node(t).ast, "self._pauseCount", 1) else "F"
+            s = [d for d, l in g.succ[t] if l == lab]
+            w = must_pass(g, s, rem, exc=False)
+            ctx.check(w is None, "pause/leaves-runnable-set", q + " | <count reaches 1>", "the first pause() can return with the task still runnable", witness=g.describe(w))
 
-    f = tm["resume"]
-    ctx.functions.add(f"{TASK}:CooperativeTask.resume")
-    g = ctx.cfg(f)
-    q = f"{QT}.resume"
-    decs = g.ids(lambda n: n.kind == "stmt" and isinstance(n.ast, ast.AugAssign) and self_attr(n.ast.target, "_pauseCount"))
-    ctx.check(len(decs) == 1 and isinstance(g.node(decs[0]).ast.op, ast.Sub) and is_const_num(g.node(decs[0]).ast.value, 1), "resume/count", q,
-              "resume() does not decrement _pauseCount by exactly one")
-    for d in decs:
-        ctx.check(guarded_ne(g, d, "self._pauseCount", 0), "resume/not-paused-raises", ctx.construct(q, g.node(d).ast),
-                  "resume() decrements an unpaused task's count (goes negative; the task is advanced while a later pause believes it is paused)")
-    adds = gfind(g, lambda x: _is_call(x, "self._cooperator._addTask"))
-    ctx.check(bool(adds), "resume/rejoins-runnable-set", q, "resume() never re-adds the task: a resumed task is starved forever")
-    for n in adds:
-        key = ctx.construct(q, g.node(n).ast)
-        ctx.check(guarded_eq(g, n, "self._pauseCount", 0) and bool(decs) and g.must_precede(decs, [n]) is None, "resume/rejoins-runnable-set", key,
-                  "_addTask is not tied to the 1->0 transition (a still-paused task becomes runnable, or is added twice)")
-        ctx.check(_state_none_guard(g, n, "self"), "resume/finished-stays-out", key,
-                  "resume() re-adds a task that completed while paused (it would be advanced after stop/failure)")
-    for t in g.ids(lambda n: n.kind == "test" and is_none_test(n.ast, "self._completionState") is not None):
-        lab = "T" if is_none_test(g.node(t).ast, "self._completionState") else "F"
-        s2 = [x for x, l in g.succ[t] if l == lab]
-        w = must_pass(g, s2, adds, exc=False)
-        ctx.check(w is None, "resume/rejoins-runnable-set", q + " | <count reaches 0>", "a fully resumed, unfinished task can be left out of the runnable set",
-                  witness=g.describe(w))
+    # ---- resume --------------------
+    with section(ctx, 'resume'):
+        f = tm["resume"]
+        ctx.functions.add(f"{TASK}:CooperativeTask.resume")
+        g = ctx.cfg(f)
+        q = f"{QT}.resume"
+        decs = g.ids(lambda n: n.kind == "stmt" and isinstance(n.ast, ast.AugAssign) and self_attr(n.ast.target, "_pauseCount"))
+        ctx.check(len(decs) == 1 and isinstance(g.node(decs[0]).ast.op, ast.Sub) and is_const_num(g.node(decs[0]).ast.value, 1), "resume/count", q,
+                  "resume() does not decrement _pauseCount by exactly one")
+        for d in decs:
+            ctx.check(guarded_ne(g, d, "self._pauseCount", 0), "resume/not-paused-raises", ctx.construct(q, g.node(d).ast),
+                      "resume() decrements an unpaused task's count (goes negative; the task is advanced while a later pause believes it is paused)")
+        adds = gfind(g, lambda x: _is_call(x, "self._cooperator._addTask"))
+        ctx.check(bool(adds), "resume/rejoins-runnable-set", q, "resume() never re-adds the task: a resumed task is starved forever")
+        for n in adds:
+            key = ctx.construct(q, g.node(n).ast)
+            ctx.check(guarded_eq(g, n, "self._pauseCount", 0) and bool(decs) and g.must_precede(decs, [n]) is None, "resume/rejoins-runnable-set", key,
+                      "_addTask is not tied to the 1->0 transition (a still-paused task becomes runnable, or is added twice)")
+            ctx.check(_state_none_guard(g, n, "self"), "resume/finished-stays-out", key,
+                      "resume() re-adds a task that completed while paused (it would be advanced after stop/failure)")
+        for t in g.ids(lambda n: n.kind == "test" and is_none_test(n.ast, "self._completionState") is not None):
+            lab = "T" if is_none_test(g.node(t).ast, "self._completionState") else "F"
+            s2 = [x for x, l in g.succ[t] if l == lab]
+            w = must_pass(g, s2, adds, exc=False)
+            ctx.check(w is None, "resume/rejoins-runnable-set", q + " | <count reaches 0>", "a fully resumed, unfinished task can be left out of the runnable set",
+                      witness=g.describe(w))
 
     # ---- completion: once, ordered, table of (state, result) ---------------------------------------------------------
-    f = tm["_completeWith"]
-    ctx.functions.add(f"{TASK}:CooperativeTask._completeWith")
-    g = ctx.cfg(f)
-    q = f"{QT}._completeWith"
-    params = [a.arg for a in f.args.args]
-    ctx.need(len(params) == 3, "_completeWith(self, state, result)")
-    st_assign = g.ids(lambda n: n.kind == "stmt" and any(self_attr(t, "_completionState") and isinstance(v, ast.Name) and v.id == params[1] for t, v in assign_pairs(n.ast)))
-    rs_assign = g.ids(lambda n: n.kind == "stmt" and any(self_attr(t, "_completionResult") and isinstance(v, ast.Name) and v.id == params[2] for t, v in assign_pairs(n.ast)))
-    loops = g.ids(lambda n: n.kind == "for" and (src(n.ast.iter) == "self._deferreds" or _snapshot_of(n.ast.iter, "self._deferreds")))
-    fires = gfind(g, lambda x: isinstance(x, ast.Call) and call_attr(x) == "callback")
-    ctx.check(bool(loops) and bool(fires), "complete/fires-every-waiter", q, "_completeWith no longer fires every whenDone Deferred")
-    for n in fires:
-        call = next(x for x in ast.walk(g.node(n).ast) if isinstance(x, ast.Call) and call_attr(x) == "callback")
-        loop = enclosing(call, (ast.For,))
-        ok = (loop is not None and isinstance(loop.target, ast.Name) and src(call.func.value) == loop.target.id
-              and len(call.args) == 1 and isinstance(call.args[0], ast.Name) and call.args[0].id == params[2])
-        ctx.check(ok, "complete/fires-every-waiter", ctx.construct(q, g.node(n).ast), "a waiter is not fired with the completion result")
-    for what, nodes in (("_completionState", st_assign), ("_completionResult", rs_assign)):
-        w = g.must_precede(nodes, fires) if nodes else [g.entry]
-        ctx.check(bool(nodes) and w is None, "complete/state-before-fire", f"{q} | self.{what}",
-                  f"self.{what} is not stored before the whenDone Deferreds fire: a callback calling whenDone()/pause()/stop() sees an unfinished task "
-                  "(its new Deferred is appended to the list being fired, or the task is completed re-entrantly)", witness=g.describe(w))
-    rem = gfind(g, lambda x: _is_call(x, "self._cooperator._removeTask"))
-    ctx.check(bool(rem), "complete/leaves-runnable-set", q, "a completed task is never removed from the cooperator (it keeps being advanced)")
-    for n in rem:
-        key = ctx.construct(q, g.node(n).ast)
-        ctx.check(guarded_eq(g, n, "self._pauseCount", 0), "complete/leaves-runnable-set", key,
-                  "_removeTask on completion is not restricted to unpaused tasks (a paused task is not in the list: ValueError)")
-        w = g.path(loops, [n], edge_ok=no_exc) if loops else None
-        ctx.check(w is None, "complete/removed-before-fire", key,
-                  "the task is still in the cooperator while its whenDone Deferreds fire (a callback stopping the cooperator completes it re-entrantly)",
-                  witness=g.describe(w))
-    t0 = [t for t in g.ids(lambda n: n.kind == "test") if src(g.node(t).ast) in ("self._pauseCount", "self._pauseCount == 0", "self._pauseCount != 0")]
-    for t in t0:
-        zero_lab = "T" if src(g.node(t).ast).endswith("== 0") else "F"
-        s = [d for d, l in g.succ[t] if l == zero_lab]
-        w = must_pass(g, s, rem, exc=False)
-        ctx.check(w is None, "complete/leaves-runnable-set", ctx.construct(q, g.node(t).ast), "an unpaused task can complete without leaving the runnable set", witness=g.describe(w))
-    once_guarded = bool(st_assign) and all(_state_none_guard(g, n, "self") for n in st_assign + fires)
+    with section(ctx, 'completion: once, ordered, table of (state, result)'):
+        f = tm["_completeWith"]
+        ctx.functions.add(f"{TASK}:CooperativeTask._completeWith")
+        g = ctx.cfg(f)
+        q = f"{QT}._completeWith"
+        params = [a.arg for a in f.args.args]
+        ctx.need(len(params) == 3, "_completeWith(self, state, result)")
+        st_assign = g.ids(lambda n: n.kind == "stmt" and any(self_attr(t, "_completionState") and isinstance(v, ast.Name) and v.id == params[1] for t, v in assign_pairs(n.ast)))
+        rs_assign = g.ids(lambda n: n.kind == "stmt" and any(self_attr(t, "_completionResult") and isinstance(v, ast.Name) and v.id == params[2] for t, v in assign_pairs(n.ast)))
+        loops = g.ids(lambda n: n.kind == "for" and (src(n.ast.iter) == "self._deferreds" or _snapshot_of(n.ast.iter, "self._deferreds")))
+        fires = gfind(g, lambda x: isinstance(x, ast.Call) and call_attr(x) == "callback")
+        ctx.check(bool(loops) and bool(fires), "complete/fires-every-waiter", q, "_completeWith no longer fires every whenDone Deferred")
+        for n in fires:
+            call = next(x for x in ast.walk(g.node(n).ast) if isinstance(x, ast.Call) and call_attr(x) == "callback")
+            loop = enclosing(call, (ast.For,))
+            ok = (loop is not None and isinstance(loop.target, ast.Name) and src(call.func.value) == loop.target.id
+                  and len(call.args) == 1 and isinstance(call.args[0], ast.Name) and call.args[0].id == params[2])
+            ctx.check(ok, "complete/fires-every-waiter", ctx.construct(q, g.node(n).ast), "a waiter is not fired with the completion result")
+        for what, nodes in (("_completionState", st_assign), ("_completionResult", rs_assign)):
+            w = g.must_precede(nodes, fires) if nodes else [g.entry]
+            ctx.check(bool(nodes) and w is None, "complete/state-before-fire", f"{q} | self.{what}",
+                      f"self.{what} is not stored before the whenDone Deferreds fire: a callback calling whenDone()/pause()/stop() sees an unfinished task "
+                      "(its new Deferred is appended to the list being fired, or the task is completed re-entrantly)", witness=g.describe(w))
+        rem = gfind(g, lambda x: _is_call(x, "self._cooperator._removeTask"))
+        ctx.check(bool(rem), "complete/leaves-runnable-set", q, "a completed task is never removed from the cooperator (it keeps being advanced)")
+        for n in rem:
+            key = ctx.construct(q, g.node(n).ast)
+            ctx.check(guarded_eq(g, n, "self._pauseCount", 0), "complete/leaves-runnable-set", key,
+                      "_removeTask on completion is not restricted to unpaused tasks (a paused task is not in the list: ValueError)")
+            w = g.path(loops, [n], edge_ok=no_exc) if loops else None
+            ctx.check(w is None, "complete/removed-before-fire", key,
+                      "the task is still in the cooperator while its whenDone Deferreds fire (a callback stopping the cooperator completes it re-entrantly)",
+                      witness=g.describe(w))
+        t0 = [t for t in g.ids(lambda n: n.kind == "test") if src(g.node(t).ast) in ("self._pauseCount", "self._pauseCount == 0", "self._pauseCount != 0")]
+        for t in t0:
+            zero_lab = "T" if src(g.node(t).ast).endswith("== 0") else "F"
+            s = [d for d, l in g.succ[t] if l == zero_lab]
+            w = must_pass(g, s, rem, exc=False)
+            ctx.check(w is None, "complete/leaves-runnable-set", ctx.construct(q, g.node(t).ast), "an unpaused task can complete without leaving the runnable set", witness=g.describe(w))
+        once_guarded = bool(st_assign) and all(_state_none_guard(g, n, "self") for n in st_assign + fires)
 
-    # every call site of _completeWith
-    nsites = 0
-    for cname, qn, fn in funcs:
-        body = ast.walk(fn.body) if isinstance(fn, ast.Lambda) else body_walk(fn)
-        sites = [c for c in body if isinstance(c, ast.Call) and call_attr(c) == "_completeWith"]
-        if not sites:
-            continue
-        fq = f"twisted.internet.task.{qn}"
-        gf = ctx.cfg(fn)
-        nest_depth = qn.count(".") - 1
-        for c in sites:
-            nsites += 1
-            key = ctx.construct(fq, c)
-            recv = src(c.func.value)
-            ns = gf.ids_of(c) if not isinstance(fn, ast.Lambda) else [n.id for n in gf.nodes if n.kind == "stmt"]
-            ok = once_guarded
-            why = ""
-            if not ok and ns and all(_state_none_guard(gf, n, recv) for n in ns):
-                ok = True
-            if not ok and cname == "CooperativeTask" and nest_depth == 0 and recv == "self":
-                checks = gfind(gf, lambda x: _is_call(x, "self._checkFinish"))
-                if checks and gf.must_precede(checks, ns) is None:
+    # ---- every call site of _completeWith --------------------
+    with section(ctx, 'every call site of _completeWith'):
+        # every call site of _completeWith
+        nsites = 0
+        for cname, qn, fn in funcs:
+            body = ast.walk(fn.body) if isinstance(fn, ast.Lambda) else body_walk(fn)
+            sites = [c for c in body if isinstance(c, ast.Call) and call_attr(c) == "_completeWith"]
+            if not sites:
+                continue
+            fq = f"twisted.internet.task.{qn}"
+            gf = ctx.cfg(fn)
+            nest_depth = qn.count(".") - 1
+            for c in sites:
+                nsites += 1
+                key = ctx.construct(fq, c)
+                recv = src(c.func.value)
+                ns = gf.ids_of(c) if not isinstance(fn, ast.Lambda) else [n.id for n in gf.nodes if n.kind == "stmt"]
+                ok = once_guarded
+                why = ""
+                if not ok and ns and all(_state_none_guard(gf, n, recv) for n in ns):
                     ok = True
-                elif qn == "CooperativeTask._oneWorkUnit":
-                    ok = True  # only invoked by Cooperator._tick on a task drawn from _tasks (rule advance/only-runnable)
-            if not ok and cname == "Cooperator" and nest_depth == 0 and isinstance(c.func.value, ast.Name):
-                loop = None
-                for p in parents(c):
-                    if isinstance(p, ast.For) and isinstance(p.target, ast.Name) and p.target.id == recv:
-                        loop = p
-                        break
-                if loop is not None and (src(loop.iter) == "self._tasks" or _snapshot_of(loop.iter, "self._tasks")):
-                    ok = True  # in _tasks  =>  not complete
+                if not ok and cname == "CooperativeTask" and nest_depth == 0 and recv == "self":
+                    checks = gfind(gf, lambda x: _is_call(x, "self._checkFinish"))
+                    if checks and gf.must_precede(checks, ns) is None:
+                        ok = True
+                    elif qn == "CooperativeTask._oneWorkUnit":
+                        ok = True  # only invoked by Cooperator._tick on a task drawn from _tasks (rule advance/only-runnable)
+                if not ok and cname == "Cooperator" and nest_depth == 0 and isinstance(c.func.value, ast.Name):
+                    loop = None
+                    for p in parents(c):
+                        if isinstance(p, ast.For) and isinstance(p.target, ast.Name) and p.target.id == recv:
+                            loop = p
+                            break
+                    if loop is not None and (src(loop.iter) == "self._tasks" or _snapshot_of(loop.iter, "self._tasks")):
+                        ok = True  # in _tasks  =>  not complete
+                    else:
+                        apps = gfind(gf, lambda x: isinstance(x, ast.Call) and call_name(x) == "self._tasks.append" and len(x.args) == 1 and src(x.args[0]) == recv)
+                        if apps and gf.must_precede(apps, ns) is None and qn == "Cooperator._addTask":
+                            ok = True  # _addTask is only applied to unfinished tasks (rule add/only-unfinished)
+                ctx.check(ok, "complete/once", key,
+                          "_completeWith can run on a task that is already complete: every whenDone Deferred is fired a second time "
+                          "(AlreadyCalledError) and the completion state is overwritten")
+                # table: state <-> result
+                if len(c.args) == 2 and isinstance(c.args[0], ast.Call) and dotted(c.args[0].func) in STATES and not c.args[0].args:
+                    s = dotted(c.args[0].func)
+                    r = c.args[1]
+                    handler = enclosing(c, (ast.ExceptHandler,))
+                    if s == "TaskDone":
+                        okr = src(r) == f"{recv}._iterator" and handler is not None and handler.type is not None and dotted(handler.type) == "StopIteration"
+                    elif s == "TaskFailed":
+                        in_handler = handler is not None and not (handler.type is not None and dotted(handler.type) == "StopIteration")
+                        okr = (in_handler and src(r) == "Failure()") or (isinstance(r, ast.Name) and not isinstance(fn, ast.Lambda) and fn.args.args and r.id == fn.args.args[0].arg and nest_depth >= 1)
+                    else:
+                        okr = src(r) == f"Failure({s}())"
+                    ctx.check(okr, "complete/state-result-table", key, f"completion state {s} is paired with the wrong result {src(r)} "
+                              "(whenDone must fire with the iterator on exhaustion, with the failure / stop reason otherwise)")
                 else:
-                    apps = gfind(gf, lambda x: isinstance(x, ast.Call) and call_name(x) == "self._tasks.append" and len(x.args) == 1 and src(x.args[0]) == recv)
-                    if apps and gf.must_precede(apps, ns) is None and qn == "Cooperator._addTask":
-                        ok = True  # _addTask is only applied to unfinished tasks (rule add/only-unfinished)
-            ctx.check(ok, "complete/once", key,
-                      "_completeWith can run on a task that is already complete: every whenDone Deferred is fired a second time "
-                      "(AlreadyCalledError) and the completion state is overwritten")
-            # table: state <-> result
-            if len(c.args) == 2 and isinstance(c.args[0], ast.Call) and dotted(c.args[0].func) in STATES and not c.args[0].args:
-                s = dotted(c.args[0].func)
-                r = c.args[1]
-                handler = enclosing(c, (ast.ExceptHandler,))
-                if s == "TaskDone":
-                    okr = src(r) == f"{recv}._iterator" and handler is not None and handler.type is not None and dotted(handler.type) == "StopIteration"
-                elif s == "TaskFailed":
-                    in_handler = handler is not None and not (handler.type is not None and dotted(handler.type) == "StopIteration")
-                    okr = (in_handler and src(r) == "Failure()") or (isinstance(r, ast.Name) and not isinstance(fn, ast.Lambda) and fn.args.args and r.id == fn.args.args[0].arg and nest_depth >= 1)
-                else:
-                    okr = src(r) == f"Failure({s}())"
-                ctx.check(okr, "complete/state-result-table", key, f"completion state {s} is paired with the wrong result {src(r)} "
-                          "(whenDone must fire with the iterator on exhaustion, with the failure / stop reason otherwise)")
-            else:
-                ctx.violation("complete/state-result-table", key, "completion state is not one of the TaskFinished/SchedulerStopped classes instantiated in place")
-    ctx.floor("complete/once", nsites, 3)
+                    ctx.violation("complete/state-result-table", key, "completion state is not one of the TaskFinished/SchedulerStopped classes instantiated in place")
+        ctx.floor("complete/once", nsites, 3)
 
-    # who may write the completion fields / the waiter list / the counters
-    acc = class_accesses(mod, task, {"_completionState", "_completionResult", "_deferreds", "_pauseCount"}, receivers=None)
-    acc += [a for a in class_accesses(mod, coop, {"_completionState", "_completionResult", "_deferreds", "_pauseCount"}, receivers=None)]
-    for a in acc:
-        key = ctx.construct(f"twisted.internet.task.{a.func}", a.node)
-        if a.attr in ("_completionState", "_completionResult"):
-            ok = (a.func == "CooperativeTask._completeWith" and a.kind == "assign") or \
-                 (a.func == "CooperativeTask.__init__" and a.kind == "assign" and any(is_const(v, None) for t, v in assign_pairs(a.node)))
-            ctx.check(ok, "who-may-write/completion", key, "completion state/result written outside __init__ (None) and _completeWith")
-        elif a.attr == "_deferreds":
-            ok = (a.func == "CooperativeTask.__init__" and a.kind == "rebind-empty") or (a.func == "CooperativeTask.whenDone" and a.kind == "append") or \
-                 (a.func == "CooperativeTask._completeWith" and a.kind in ("rebind-empty", "clear"))
-            ctx.check(ok, "who-may-write/waiters", key, f"unexpected {a.kind} of the whenDone waiter list (a waiter is lost or fired out of protocol)")
-        else:
-            ok = (a.func == "CooperativeTask.__init__" and a.kind == "assign") or (a.func in ("CooperativeTask.pause", "CooperativeTask.resume") and a.kind == "augassign")
-            ctx.check(ok, "who-may-write/pauseCount", key, "_pauseCount changed outside pause()/resume()")
-    ctx.floor("who-may-write", len(acc), 5)
+    # ---- who may write the task fields --------------------
+    with section(ctx, 'who may write the task fields'):
+        # who may write the completion fields / the waiter list / the counters
+        acc = class_accesses(mod, task, {"_completionState", "_completionResult", "_deferreds", "_pauseCount"}, receivers=None)
+        acc += [a for a in class_accesses(mod, coop, {"_completionState", "_completionResult", "_deferreds", "_pauseCount"}, receivers=None)]
+        for a in acc:
+            key = ctx.construct(f"twisted.internet.task.{a.func}", a.node)
+            if a.attr in ("_completionState", "_completionResult"):
+                ok = (a.func == "CooperativeTask._completeWith" and a.kind == "assign") or \
+                     (a.func == "CooperativeTask.__init__" and a.kind == "assign" and any(is_const(v, None) for t, v in assign_pairs(a.node)))
+                ctx.check(ok, "who-may-write/completion", key, "completion state/result written outside __init__ (None) and _completeWith")
+            elif a.attr == "_deferreds":
+                ok = (a.func == "CooperativeTask.__init__" and a.kind == "rebind-empty") or (a.func == "CooperativeTask.whenDone" and a.kind == "append") or \
+                     (a.func == "CooperativeTask._completeWith" and a.kind in ("rebind-empty", "clear"))
+                ctx.check(ok, "who-may-write/waiters", key, f"unexpected {a.kind} of the whenDone waiter list (a waiter is lost or fired out of protocol)")
+            else:
+                ok = (a.func == "CooperativeTask.__init__" and a.kind == "assign") or (a.func in ("CooperativeTask.pause", "CooperativeTask.resume") and a.kind == "augassign")
+                ctx.check(ok, "who-may-write/pauseCount", key, "_pauseCount changed outside pause()/resume()")
+        ctx.floor("who-may-write", len(acc), 5)
 
     # ---- whenDone: register only while incomplete, else fire at once --------------------------------------------------
-    f = tm["whenDone"]
-    ctx.functions.add(f"{TASK}:CooperativeTask.whenDone")
-    g = ctx.cfg(f)
-    q = f"{QT}.whenDone"
-    fresh = {t.id for st in body_walk(f) for t, v in assign_pairs(st) if isinstance(t, ast.Name) and isinstance(v, ast.Call) and dotted(v.func) == "Deferred"}
-    apps = gfind(g, lambda x: _is_call(x, "self._deferreds.append"))
-    fire = gfind(g, lambda x: isinstance(x, ast.Call) and call_attr(x) == "callback")
-    ctx.check(bool(apps) and bool(fire), "whenDone/register-or-fire", q, "whenDone() lost its register / fire-at-once branch")
-    for n in apps:
-        call = next(x for x in ast.walk(g.node(n).ast) if _is_call(x, "self._deferreds.append"))
-        ctx.check(_state_none_guard(g, n, "self") and isinstance(call.args[0], ast.Name) and call.args[0].id in fresh, "whenDone/late-registration", ctx.construct(q, g.node(n).ast),
-                  "a Deferred is registered on an already completed task (it never fires), or is not the fresh Deferred")
-    for n in fire:
-        call = next(x for x in ast.walk(g.node(n).ast) if isinstance(x, ast.Call) and call_attr(x) == "callback")
-        ok = guarded_not_none(g, n, "self._completionState") and src(call.args[0]) == "self._completionResult" and isinstance(call.func.value, ast.Name) and call.func.value.id in fresh
-        ctx.check(ok, "whenDone/late-registration", ctx.construct(q, g.node(n).ast), "whenDone() on a finished task does not fire the fresh Deferred with the stored result")
-    w = must_pass(g, [g.entry], apps + fire, exc=False)
-    ctx.check(w is None, "whenDone/register-or-fire", q, "whenDone() can return a Deferred that is neither registered nor fired", witness=g.describe(w))
-    rets = g.ids(lambda n: n.kind == "stmt" and isinstance(n.ast, ast.Return))
-    ctx.check(bool(rets) and all(isinstance(g.node(r).ast.value, ast.Name) and g.node(r).ast.value.id in fresh for r in rets), "whenDone/register-or-fire", q + " | <return>",
-              "whenDone() does not return the fresh Deferred")
+    with section(ctx, 'whenDone: register only while incomplete, else fire at once'):
+        f = tm["whenDone"]
+        ctx.functions.add(f"{TASK}:CooperativeTask.whenDone")
+        g = ctx.cfg(f)
+        q = f"{QT}.whenDone"
+        fresh = {t.id for st in body_walk(f) for t, v in assign_pairs(st) if isinstance(t, ast.Name) and isinstance(v, ast.Call) and dotted(v.func) == "Deferred"}
+        apps = gfind(g, lambda x: _is_call(x, "self._deferreds.append"))
+        fire = gfind(g, lambda x: isinstance(x, ast.Call) and call_attr(x) == "callback")
+        ctx.check(bool(apps) and bool(fire), "whenDone/register-or-fire", q, "whenDone() lost its register / fire-at-once branch")
+        for n in apps:
+            call = next(x for x in ast.walk(g.node(n).ast) if _is_call(x, "self._deferreds.append"))
+            ctx.check(_state_none_guard(g, n, "self") and isinstance(call.args[0], ast.Name) and call.args[0].id in fresh, "whenDone/late-registration", ctx.construct(q, g.node(n).ast),
+                      "a Deferred is registered on an already completed task (it never fires), or is not the fresh Deferred")
+        for n in fire:
+            call = next(x for x in ast.walk(g.node(n).ast) if isinstance(x, ast.Call) and call_attr(x) == "callback")
+            ok = guarded_not_none(g, n, "self._completionState") and src(call.args[0]) == "self._completionResult" and isinstance(call.func.value, ast.Name) and call.func.value.id in fresh
+            ctx.check(ok, "whenDone/late-registration", ctx.construct(q, g.node(n).ast), "whenDone() on a finished task does not fire the fresh Deferred with the stored result")
+        w = must_pass(g, [g.entry], apps + fire, exc=False)
+        ctx.check(w is None, "whenDone/register-or-fire", q, "whenDone() can return a Deferred that is neither registered nor fired", witness=g.describe(w))
+        rets = g.ids(lambda n: n.kind == "stmt" and isinstance(n.ast, ast.Return))
+        ctx.check(bool(rets) and all(isinstance(g.node(r).ast.value, ast.Name) and g.node(r).ast.value.id in fresh for r in rets), "whenDone/register-or-fire", q + " | <return>",
+                  "whenDone() does not return the fresh Deferred")
 
     # ---- _oneWorkUnit -----------------------------------------------------------------------------------------------------
-    f = tm["_oneWorkUnit"]
-    ctx.functions.add(f"{TASK}:CooperativeTask._oneWorkUnit")
-    q = f"{QT}._oneWorkUnit"
-    g = ctx.cfg(f, exception_is_all=False)
-    nx = gfind(g, lambda x: isinstance(x, ast.Call) and dotted(x.func) == "next" and x.args and src(x.args[0]) == "self._iterator")
-    ctx.check(len(nx) == 1, "advance/one-next", q, f"_oneWorkUnit advances the iterator at {len(nx)} sites (exactly one expected per work unit)")
-    for n in nx:
-        key = ctx.construct(q, g.node(n).ast)
-        esc = [d for d, l in g.succ[n] if l == "exc" and d == g.raise_exit]
-        ctx.check(not esc, "advance/every-exception-completes", key,
-                  "an exception raised by the iterator that is not an Exception subclass (e.g. KeyboardInterrupt, GeneratorExit, SystemExit) "
-                  "escapes _oneWorkUnit: the tick aborts, the task is never completed and its whenDone never fires")
-        hs = [d for d, l in g.succ[n] if l == "exc" and g.node(d).kind == "handler"]
-        for h in hs:
-            comp = gfind(g, lambda x: _is_call(x, "self._completeWith"))
-            w = must_pass(g, [h], comp, exc=False)
-            ctx.check(w is None, "advance/every-exception-completes", ctx.construct(q, "except " + src(g.node(h).ast.type) if g.node(h).ast.type is not None else "except"),
-                      "a handler around next() can finish without completing the task", witness=g.describe(w))
-        tr = enclosing(next(x for x in ast.walk(g.node(n).ast) if isinstance(x, ast.Call) and dotted(x.func) == "next"), (ast.Try,))
-        if tr is not None:
-            names = [dotted(h.type) if h.type is not None else "BaseException" for h in tr.handlers]
-            ok = "StopIteration" in names and all(nm in ("StopIteration",) or i > names.index("StopIteration") for i, nm in enumerate(names))
-            ctx.check(ok, "advance/exhaustion-is-not-failure", key, "StopIteration is not handled before the catch-all: exhaustion would be reported as TaskFailed")
-        else:
-            ctx.violation("advance/every-exception-completes", key, "next() is not inside try/except")
-    results = {t.id for st in body_walk(f) for t, v in assign_pairs(st) if isinstance(t, ast.Name) and isinstance(v, ast.Call) and dotted(v.func) == "next"}
-    g = ctx.cfg(f)
-    dtests = g.ids(lambda n: n.kind == "test" and isinstance(n.ast, ast.Call) and dotted(n.ast.func) == "isinstance" and len(n.ast.args) == 2
-                   and isinstance(n.ast.args[0], ast.Name) and n.ast.args[0].id in results and src(n.ast.args[1]) == "Deferred")
-    ctx.check(bool(dtests), "advance/waits-for-deferred", q, "_oneWorkUnit no longer recognises a yielded Deferred")
-    pauses = gfind(g, lambda x: _is_call(x, "self.pause"))
-    regs = gfind(g, lambda x: isinstance(x, ast.Call) and isinstance(x.func, ast.Attribute) and x.func.attr in ("addCallbacks", "addCallback", "addErrback", "addBoth")
-                 and isinstance(x.func.value, ast.Name) and x.func.value.id in results)
-    for t in dtests:
-        s = [d for d, l in g.succ[t] if l == "T"]
-        w = must_pass(g, s, pauses, exc=False)
-        ctx.check(bool(pauses) and w is None, "advance/waits-for-deferred", q + " | <yielded Deferred>",
-                  "a task that yielded a Deferred stays runnable: it is advanced again while that Deferred is unfired", witness=g.describe(w))
-        w = must_pass(g, s, regs, exc=False)
-        ctx.check(bool(regs) and w is None, "advance/resumes-after-deferred", q + " | <yielded Deferred>",
-                  "no callback is registered on the yielded Deferred: the task is never resumed (starved) nor failed", witness=g.describe(w))
-    for n in regs:
-        w = g.must_precede(pauses, [n]) if pauses else [g.entry]
-        ctx.check(w is None, "advance/pause-before-callbacks", ctx.construct(q, g.node(n).ast),
-                  "the resume callback is registered before the task is paused: an already fired Deferred resumes an unpaused task (NotPaused), "
-                  "and the following pause() is never undone", witness=g.describe(w))
-    # what the registered callbacks do
-    nd = nested_defs(f)
-    succ_ok = fail_ok = False
-    for n in regs:
-        for call in [x for x in ast.walk(g.node(n).ast) if isinstance(x, ast.Call) and isinstance(x.func, ast.Attribute) and x.func.attr in ("addCallbacks", "addCallback", "addErrback", "addBoth")]:
-            a = call.func.attr
-            cbs = call.args[:1] if a in ("addCallback", "addCallbacks", "addBoth") else []
-            ebs = call.args[1:2] if a == "addCallbacks" else (call.args[:1] if a in ("addErrback", "addBoth") else [])
-            for kwd in call.keywords:
-                if kwd.arg == "callback":
-                    cbs = [kwd.value]
-                if kwd.arg == "errback":
-                    ebs = [kwd.value]
+    with section(ctx, '_oneWorkUnit'):
+        f = tm["_oneWorkUnit"]
+        ctx.functions.add(f"{TASK}:CooperativeTask._oneWorkUnit")
+        q = f"{QT}._oneWorkUnit"
+        g = ctx.cfg(f, exception_is_all=False)
+        nx = gfind(g, lambda x: isinstance(x, ast.Call) and dotted(x.func) == "next" and x.args and src(x.args[0]) == "self._iterator")
+        ctx.check(len(nx) == 1, "advance/one-next", q, f"_oneWorkUnit advances the iterator at {len(nx)} sites (exactly one expected per work unit)")
+        for n in nx:
+            key = ctx.construct(q, g.node(n).ast)
+            esc = [d for d, l in g.succ[n] if l == "exc" and d == g.raise_exit]
+            ctx.check(not esc, "advance/every-exception-completes", key,
+                      "an exception raised by the iterator that is not an Exception subclass (e.g. KeyboardInterrupt, GeneratorExit, SystemExit) "
+                      "escapes _oneWorkUnit: the tick aborts, the task is never completed and its whenDone never fires")
+            hs = [d for d, l in g.succ[n] if l == "exc" and g.node(d).kind == "handler"]
+            for h in hs:
+                comp = gfind(g, lambda x: _is_call(x, "self._completeWith"))
+                w = must_pass(g, [h], comp, exc=False)
+                ctx.check(w is None, "advance/every-exception-completes", ctx.construct(q, "except " + src(g.node(h).ast.type) if g.node(h).ast.type is not None else "except"),
+                          "a handler around next() can finish without completing the task", witness=g.describe(w))
+            tr = enclosing(next(x for x in ast.walk(g.node(n).ast) if isinstance(x, ast.Call) and dotted(x.func) == "next"), (ast.Try,))
+            if tr is not None:
+                names = [dotted(h.type) if h.type is not None else "BaseException" for h in tr.handlers]
+                ok = "StopIteration" in names and all(nm in ("StopIteration",) or i > names.index("StopIteration") for i, nm in enumerate(names))
+                ctx.check(ok, "advance/exhaustion-is-not-failure", key, "StopIteration is not handled before the catch-all: exhaustion would be reported as TaskFailed")
+            else:
+                ctx.violation("advance/every-exception-completes", key, "next() is not inside try/except")
+        results = {t.id for st in body_walk(f) for t, v in assign_pairs(st) if isinstance(t, ast.Name) and isinstance(v, ast.Call) and dotted(v.func) == "next"}
+        g = ctx.cfg(f)
+        dtests = g.ids(lambda n: n.kind == "test" and isinstance(n.ast, ast.Call) and dotted(n.ast.func) == "isinstance" and len(n.ast.args) == 2
+                       and isinstance(n.ast.args[0], ast.Name) and n.ast.args[0].id in results and src(n.ast.args[1]) == "Deferred")
+        ctx.check(bool(dtests), "advance/waits-for-deferred", q, "_oneWorkUnit no longer recognises a yielded Deferred")
+        pauses = gfind(g, lambda x: _is_call(x, "self.pause"))
+        regs = gfind(g, lambda x: isinstance(x, ast.Call) and isinstance(x.func, ast.Attribute) and x.func.attr in ("addCallbacks", "addCallback", "addErrback", "addBoth")
+                     and isinstance(x.func.value, ast.Name) and x.func.value.id in results)
+        for t in dtests:
+            s = [d for d, l in g.succ[t] if l == "T"]
+            w = must_pass(g, s, pauses, exc=False)
+            ctx.check(bool(pauses) and w is None, "advance/waits-for-deferred", q + " | <yielded Deferred>",
+                      "a task that yielded a Deferred stays runnable: it is advanced again while that Deferred is unfired", witness=g.describe(w))
+            w = must_pass(g, s, regs, exc=False)
+            ctx.check(bool(regs) and w is None, "advance/resumes-after-deferred", q + " | <yielded Deferred>",
+                      "no callback is registered on the yielded Deferred: the task is never resumed (starved) nor failed", witness=g.describe(w))
+        for n in regs:
+            w = g.must_precede(pauses, [n]) if pauses else [g.entry]
+            ctx.check(w is None, "advance/pause-before-callbacks", ctx.construct(q, g.node(n).ast),
+                      "the resume callback is registered before the task is paused: an already fired Deferred resumes an unpaused task (NotPaused), "
+                      "and the following pause() is never undone", witness=g.describe(w))
+        # what the registered callbacks do
+        nd = nested_defs(f)
+        succ_ok = fail_ok = False
+        for n in regs:
+            for call in [x for x in ast.walk(g.node(n).ast) if isinstance(x, ast.Call) and isinstance(x.func, ast.Attribute) and x.func.attr in ("addCallbacks", "addCallback", "addErrback", "addBoth")]:
+                a = call.func.attr
+                cbs = call.args[:1] if a in ("addCallback", "addCallbacks", "addBoth") else []
+                ebs = call.args[1:2] if a == "addCallbacks" else (call.args[:1] if a in ("addErrback", "addBoth") else [])
+                for kwd in call.keywords:
+                    if kwd.arg == "callback":
+                        cbs = [kwd.value]
+                    if kwd.arg == "errback":
+                        ebs = [kwd.value]
 
-            def body_of(e):
-                if isinstance(e, ast.Lambda):
-                    return list(ast.walk(e.body))
-                if isinstance(e, ast.Name) and e.id in nd:
-                    return list(body_walk(nd[e.id]))
-                if self_attr(e):
-                    return [e]
-                return []
-            for e in cbs:
-                if any(_is_call(x, "self.resume") for x in body_of(e)) or src(e) == "self.resume":
-                    succ_ok = True
-            for e in ebs:
-                if any(_is_call(x, "self._completeWith") for x in body_of(e)):
-                    fail_ok = True
-    ctx.check(succ_ok, "advance/resumes-after-deferred", q + " | <success callback>", "the yielded Deferred's success does not resume the task")
-    ctx.check(fail_ok, "advance/deferred-failure-fails-task", q + " | <failure callback>", "the yielded Deferred's failure does not complete the task as failed")
+                def body_of(e):
+                    if isinstance(e, ast.Lambda):
+                        return list(ast.walk(e.body))
+                    if isinstance(e, ast.Name) and e.id in nd:
+                        return list(body_walk(nd[e.id]))
+                    if self_attr(e):
+                        return [e]
+                    return []
+                for e in cbs:
+                    if any(_is_call(x, "self.resume") for x in body_of(e)) or src(e) == "self.resume":
+                        succ_ok = True
+                for e in ebs:
+                    if any(_is_call(x, "self._completeWith") for x in body_of(e)):
+                        fail_ok = True
+        ctx.check(succ_ok, "advance/resumes-after-deferred", q + " | <success callback>", "the yielded Deferred's success does not resume the task")
+        ctx.check(fail_ok, "advance/deferred-failure-fails-task", q + " | <failure callback>", "the yielded Deferred's failure does not complete the task as failed")
 
-    # _oneWorkUnit / _addTask callers
-    for cname, qn, fn in funcs:
-        body = list(ast.walk(fn.body)) if isinstance(fn, ast.Lambda) else list(body_walk(fn))
-        for c in body:
-            if not isinstance(c, ast.Call):
-                continue
-            if call_attr(c) == "_oneWorkUnit":
-                key = ctx.construct(f"twisted.internet.task.{qn}", c)
-                loop = None
-                for p in parents(c):
-                    if isinstance(p, ast.For) and isinstance(p.target, ast.Name) and p.target.id == src(c.func.value):
-                        loop = p
-                        break
-                ctx.check(qn == "Cooperator._tick" and loop is not None and src(loop.iter) == "self._tasksWhileNotStopped()", "advance/only-runnable", key,
-                          "a task is advanced outside the tick's walk over the runnable set (it may be paused, finished or waiting)")
-            if call_attr(c) == "_addTask":
-                key = ctx.construct(f"twisted.internet.task.{qn}", c)
-                gf = ctx.cfg(fn)
-                ns = gf.ids_of(c)
-                if qn == "CooperativeTask.__init__":
-                    init = gf.ids(lambda n: n.kind == "stmt" and any(self_attr(t, "_completionState") and is_const(v, None) for t, v in assign_pairs(n.ast)))
-                    zero = gf.ids(lambda n: n.kind == "stmt" and any(self_attr(t, "_pauseCount") and is_const_num(v, 0) for t, v in assign_pairs(n.ast)))
-                    ok = bool(init) and bool(zero) and gf.must_precede(init, ns) is None and gf.must_precede(zero, ns) is None
-                    ctx.check(ok, "add/only-unfinished", key, "a new task joins the cooperator before its state is initialised (a synchronous completion is then overwritten)")
-                elif qn == "CooperativeTask.resume":
-                    pass  # checked above (resume/finished-stays-out)
-                else:
-                    ctx.violation("add/only-unfinished", key, "_addTask applied outside task creation / resume (the task may be complete or already present)")
+    # ---- _oneWorkUnit / _addTask callers --------------------
+    with section(ctx, '_oneWorkUnit / _addTask callers'):
+        # _oneWorkUnit / _addTask callers
+        for cname, qn, fn in funcs:
+            body = list(ast.walk(fn.body)) if isinstance(fn, ast.Lambda) else list(body_walk(fn))
+            for c in body:
+                if not isinstance(c, ast.Call):
+                    continue
+                if call_attr(c) == "_oneWorkUnit":
+                    key = ctx.construct(f"twisted.internet.task.{qn}", c)
+                    loop = None
+                    for p in parents(c):
+                        if isinstance(p, ast.For) and isinstance(p.target, ast.Name) and p.target.id == src(c.func.value):
+                            loop = p
+                            break
+                    ctx.check(qn == "Cooperator._tick" and loop is not None and src(loop.iter) == "self._tasksWhileNotStopped()", "advance/only-runnable", key,
+                              "a task is advanced outside the tick's walk over the runnable set (it may be paused, finished or waiting)")
+                if call_attr(c) == "_addTask":
+                    key = ctx.construct(f"twisted.internet.task.{qn}", c)
+                    gf = ctx.cfg(fn)
+                    ns = gf.ids_of(c)
+                    if qn == "CooperativeTask.__init__":
+                        init = gf.ids(lambda n: n.kind == "stmt" and any(self_attr(t, "_completionState") and is_const(v, None) for t, v in assign_pairs(n.ast)))
+                        zero = gf.ids(lambda n: n.kind == "stmt" and any(self_attr(t, "_pauseCount") and is_const_num(v, 0) for t, v in assign_pairs(n.ast)))
+                        ok = bool(init) and bool(zero) and gf.must_precede(init, ns) is None and gf.must_precede(zero, ns) is None
+                        ctx.check(ok, "add/only-unfinished", key, "a new task joins the cooperator before its state is initialised (a synchronous completion is then overwritten)")
+                    elif qn == "CooperativeTask.resume":
+                        pass  # checked above (resume/finished-stays-out)
+                    else:
+                        ctx.violation("add/only-unfinished", key, "_addTask applied outside task creation / resume (the task may be complete or already present)")
 
     # ---- Cooperator: runnable set and scheduling --------------------------------------------------------------------------
-    acc = class_accesses(mod, coop, {"_tasks", "_metarator", "_delayedCall"}, receivers={"self"})
-    allowed_tasks = {("Cooperator.__init__", "rebind-empty"), ("Cooperator._addTask", "append"), ("Cooperator._removeTask", "remove"), ("Cooperator.stop", "rebind-empty")}
-    for a in acc:
-        key = ctx.construct(f"twisted.internet.task.{a.func}", a.node)
-        if a.attr == "_tasks":
-            ctx.check((a.func, a.kind) in allowed_tasks, "who-may-write/tasks", key,
-                      f"the runnable set is changed by {a.kind} in {a.func}: membership no longer follows pause/resume/complete, or round-robin order is disturbed")
-    for n in ast.walk(mod.tree):
-        if isinstance(n, ast.Attribute) and n.attr == "_tasks" and not (isinstance(n.value, ast.Name) and n.value.id == "self"):
-            ctx.violation("who-may-write/tasks", f"twisted.internet.task | {src(n)}", "the runnable set is reached through another object")
-    ctx.floor("who-may-write/tasks", len([a for a in acc if a.attr == "_tasks"]), 3)
+    with section(ctx, 'Cooperator: runnable set and scheduling'):
+        acc = class_accesses(mod, coop, {"_tasks", "_metarator", "_delayedCall"}, receivers={"self"})
+        allowed_tasks = {("Cooperator.__init__", "rebind-empty"), ("Cooperator._addTask", "append"), ("Cooperator._removeTask", "remove"), ("Cooperator.stop", "rebind-empty")}
+        for a in acc:
+            key = ctx.construct(f"twisted.internet.task.{a.func}", a.node)
+            if a.attr == "_tasks":
+                ctx.check((a.func, a.kind) in allowed_tasks, "who-may-write/tasks", key,
+                          f"the runnable set is changed by {a.kind} in {a.func}: membership no longer follows pause/resume/complete, or round-robin order is disturbed")
+        for n in ast.walk(mod.tree):
+            if isinstance(n, ast.Attribute) and n.attr == "_tasks" and not (isinstance(n.value, ast.Name) and n.value.id == "self"):
+                ctx.violation("who-may-write/tasks", f"twisted.internet.task | {src(n)}", "the runnable set is reached through another object")
+        ctx.floor("who-may-write/tasks", len([a for a in acc if a.attr == "_tasks"]), 3)
 
-    f = cm["_addTask"]
-    ctx.functions.add(f"{TASK}:Cooperator._addTask")
-    g = ctx.cfg(f)
-    q = f"{QC}._addTask"
-    p = f.args.args[1].arg
-    apps = gfind(g, lambda x: _is_call(x, "self._tasks.append") and len(x.args) == 1 and src(x.args[0]) == p)
-    res = gfind(g, lambda x: _is_call(x, "self._reschedule"))
-    comps = gfind(g, lambda x: isinstance(x, ast.Call) and call_attr(x) == "_completeWith")
-    w = must_pass(g, [g.entry], apps, exc=False)
-    ctx.check(bool(apps) and w is None, "add/joins-runnable-set", q, "_addTask can return without the task in the runnable set", witness=g.describe(w))
-    st_tests = g.ids(lambda n: n.kind == "test" and src(n.ast) == "self._stopped")
-    ctx.check(bool(st_tests) and bool(res), "add/wakes-scheduler", q, "_addTask no longer distinguishes a stopped cooperator / never reschedules")
-    for t in st_tests:
-        w = must_pass(g, [d for d, l in g.succ[t] if l == "F"], res, exc=False)
-        ctx.check(w is None, "add/wakes-scheduler", ctx.construct(q, g.node(t).ast),
-                  "a task added to an idle cooperator does not schedule a tick: it (and every resumed task) is starved until something else reschedules",
+    # ---- Cooperator._addTask --------------------
+    with section(ctx, 'Cooperator._addTask'):
+        f = cm["_addTask"]
+        ctx.functions.add(f"{TASK}:Cooperator._addTask")
+        g = ctx.cfg(f)
+        q = f"{QC}._addTask"
+        p = f.args.args[1].arg
+        apps = gfind(g, lambda x: _is_call(x, "self._tasks.append") and len(x.args) == 1 and src(x.args[0]) == p)
+        res = gfind(g, lambda x: _is_call(x, "self._reschedule"))
+        comps = gfind(g, lambda x: isinstance(x, ast.Call) and call_attr(x) == "_completeWith")
+        w = must_pass(g, [g.entry], apps, exc=False)
+        ctx.check(bool(apps) and w is None, "add/joins-runnable-set", q, "_addTask can return without the task in the runnable set", witness=g.describe(w))
+        st_tests = g.ids(lambda n: n.kind == "test" and src(n.ast) == "self._stopped")
+        ctx.check(bool(st_tests) and bool(res), "add/wakes-scheduler", q, "_addTask no longer distinguishes a stopped cooperator / never reschedules")
+        for t in st_tests:
+            w = must_pass(g, [d for d, l in g.succ[t] if l == "F"], res, exc=False)
+            ctx.check(w is None, "add/wakes-scheduler", ctx.construct(q, g.node(t).ast),
+                      "a task added to an idle cooperator does not schedule a tick: it (and every resumed task) is starved until something else reschedules",
+                      witness=g.describe(w))
+        for n in res:
+            w = g.must_precede(apps, [n]) if apps else [g.entry]
+            ctx.check(w is None, "add/wakes-scheduler", ctx.construct(q, g.node(n).ast), "_reschedule() runs before the task is in the runnable set (it sees no work and schedules nothing)",
+                      witness=g.describe(w))
+        for n in comps:
+            w = g.must_precede(apps, [n]) if apps else [g.entry]
+            ctx.check(w is None, "add/joins-runnable-set", ctx.construct(q, g.node(n).ast), "the task is completed before it was put in the list _completeWith removes it from (ValueError)",
+                      witness=g.describe(w))
+        for n in comps:
+            ctx.check(g.guarded(n, lambda e: src(e) == "self._stopped", True), "add/stopped-rejects", ctx.construct(q, g.node(n).ast),
+                      "a task is completed with SchedulerStopped although the cooperator is not stopped")
+        st_t = g.ids(lambda n: n.kind == "test" and src(n.ast) == "self._stopped")
+        for t in st_t:
+            s = [d for d, l in g.succ[t] if l == "T"]
+            w = must_pass(g, s, comps, exc=False)
+            ctx.check(bool(comps) and w is None, "add/stopped-rejects", q + " | <stopped>", "a task added to a stopped cooperator is left pending forever (whenDone never fires)",
+                      witness=g.describe(w))
+
+    # ---- Cooperator._removeTask --------------------
+    with section(ctx, 'Cooperator._removeTask'):
+        f = cm["_removeTask"]
+        ctx.functions.add(f"{TASK}:Cooperator._removeTask")
+        g = ctx.cfg(f)
+        q = f"{QC}._removeTask"
+        p = f.args.args[1].arg
+        rm = gfind(g, lambda x: _is_call(x, "self._tasks.remove") and len(x.args) == 1 and src(x.args[0]) == p)
+        w = must_pass(g, [g.entry], rm, exc=False)
+        ctx.check(bool(rm) and w is None, "remove/leaves-runnable-set", q, "_removeTask can return with the task still runnable", witness=g.describe(w))
+
+    # ---- cancelled ticks --------------------
+    with section(ctx, 'cancelled ticks'):
+        for mname in ("_removeTask", "stop"):
+            fx = cm[mname]
+            gx = ctx.cfg(fx)
+            qx = f"{QC}.{mname}"
+            canc = gfind(gx, lambda x: _is_call(x, "self._delayedCall.cancel"))
+            clr = gx.ids(lambda n: n.kind == "stmt" and any(self_attr(t, "_delayedCall") and is_const(v, None) for t, v in assign_pairs(n.ast)))
+            for n in canc:
+                key = ctx.construct(qx, gx.node(n).ast)
+                if mname == "_removeTask":
+                    ctx.check(gx.guarded(n, lambda e: src(e) == "self._tasks", False), "remove/cancel-only-when-idle", key,
+                              "removing one task cancels the pending tick although runnable tasks remain: they are starved until another task is added")
+                w = must_pass(gx, [n], clr, exc=False)
+                ctx.check(bool(clr) and w is None, "tick/cancelled-call-forgotten", key,
+                          "the cancelled tick stays in _delayedCall: _reschedule() believes a tick is pending and never schedules again (every later task starves)",
+                          witness=gx.describe(w))
+
+    # ---- round robin --------------------
+    with section(ctx, 'round robin'):
+        f = cm["_tasksWhileNotStopped"]
+        ctx.functions.add(f"{TASK}:Cooperator._tasksWhileNotStopped")
+        g = ctx.cfg(f)
+        q = f"{QC}._tasksWhileNotStopped"
+        heads = g.ids(lambda n: n.kind == "for" and src(n.ast.iter) == "self._metarator")
+        ctx.check(len(heads) == 1, "fair/round-robin-iterator", q, "the walk over the runnable set no longer consumes the persistent iterator self._metarator "
+                  "(restarting from the head each tick starves the tasks at the tail whenever the predicate ends the tick early)")
+        renew = g.ids(lambda n: n.kind == "stmt" and any(self_attr(t, "_metarator") for t, v in assign_pairs(n.ast)))
+        for n in renew:
+            key = ctx.construct(q, g.node(n).ast)
+            v = next(v for t, v in assign_pairs(g.node(n).ast) if self_attr(t, "_metarator"))
+            ctx.check(isinstance(v, ast.Call) and dotted(v.func) == "iter" and len(v.args) == 1 and src(v.args[0]) == "self._tasks", "fair/round-robin-iterator", key,
+                      "the round-robin iterator is not built over the live runnable list (paused/finished tasks would be advanced, new ones missed)")
+            preds = [(s, l) for s, l in g.pred[n] if l != "exc"]
+            ok = bool(heads) and bool(preds) and all(s in heads and l == "done" for s, l in preds)
+            ctx.check(ok, "fair/renew-only-when-exhausted", key,
+                      "the round-robin iterator is renewed before the previous round is exhausted: tasks late in the list are starved when ticks end early")
+        ctx.check(bool(renew), "fair/renew-only-when-exhausted", q + " | <renew>", "the round-robin iterator is never renewed: after one round no task is advanced")
+        for other in [a for a in class_accesses(mod, coop, {"_metarator"}, receivers={"self"}) if a.func not in ("Cooperator.__init__", "Cooperator._tasksWhileNotStopped")]:
+            ctx.violation("fair/renew-only-when-exhausted", ctx.construct(f"twisted.internet.task.{other.func}", other.node), "the round-robin iterator is reset outside the walk")
+        yields = gfind(g, lambda x: isinstance(x, ast.Yield))
+        tterm = [t for t in g.ids(lambda n: n.kind == "test" and isinstance(n.ast, ast.Call))]
+        for h in heads:
+            loopvar = src(g.node(h).ast.target)
+            ctx.check(bool(yields) and all(src(y.value) == loopvar for n in yields for y in ast.walk(g.node(n).ast) if isinstance(y, ast.Yield)), "fair/yields-runnable", q,
+                      "the generator does not yield the task taken from the round-robin iterator")
+            it = [d for d, l in g.succ[h] if l == "iter"]
+            it0 = [n for n in it if n not in yields]
+            w = g.path(it0, tterm, avoid=set(yields) | {h}) if tterm and it0 else None
+            ctx.check(w is None, "fair/progress-before-predicate", q + " | <termination predicate>",
+                      "the termination predicate is consulted before a task has been advanced in this round: with a predicate that is already true "
+                      "(a tick started late) no task ever makes progress", witness=g.describe(w))
+            w = must_pass(g, it, yields, to=[h, g.exit], exc=False)
+            ctx.check(w is None, "fair/yields-runnable", q + " | <every element>", "a task taken from the iterator can be skipped without being advanced", witness=g.describe(w))
+        wl = g.ids(lambda n: n.kind == "test" and src(n.ast) == "self._tasks")
+        ctx.check(bool(wl), "fair/stops-when-empty", q, "the walk does not terminate when the runnable set is empty (busy loop) or never starts")
+
+    # ---- Cooperator._tick --------------------
+    with section(ctx, 'Cooperator._tick'):
+        f = cm["_tick"]
+        ctx.functions.add(f"{TASK}:Cooperator._tick")
+        g = ctx.cfg(f)
+        q = f"{QC}._tick"
+        clr = g.ids(lambda n: n.kind == "stmt" and any(self_attr(t, "_delayedCall") and is_const(v, None) for t, v in assign_pairs(n.ast)))
+        res = gfind(g, lambda x: _is_call(x, "self._reschedule"))
+        w = must_pass(g, [g.entry], res, exc=False)
+        ctx.check(bool(res) and w is None, "tick/reschedules", q, "a tick can end without rescheduling: remaining runnable tasks are starved", witness=g.describe(w))
+        w = g.must_precede(clr, res) if clr else [g.entry]
+        ctx.check(bool(clr) and w is None, "tick/forgets-spent-call", q,
+                  "_delayedCall still refers to the spent call when _reschedule() runs: it believes a tick is pending and schedules nothing (all tasks starve)",
                   witness=g.describe(w))
-    for n in res:
-        w = g.must_precede(apps, [n]) if apps else [g.entry]
-        ctx.check(w is None, "add/wakes-scheduler", ctx.construct(q, g.node(n).ast), "_reschedule() runs before the task is in the runnable set (it sees no work and schedules nothing)",
+        work = gfind(g, lambda x: isinstance(x, ast.Call) and call_attr(x) == "_oneWorkUnit")
+        w = g.must_precede(clr, work) if clr and work else None
+        ctx.check(w is None, "tick/forgets-spent-call", q + " | <before work>",
+                  "_delayedCall is cleared after the work units: a task removed during the tick cancels the spent call (AlreadyCalled) / a pause-resume inside the tick "
+                  "cannot schedule", witness=g.describe(w))
+
+    # ---- Cooperator._reschedule and start --------------------
+    with section(ctx, 'Cooperator._reschedule and start'):
+        f = cm["_reschedule"]
+        ctx.functions.add(f"{TASK}:Cooperator._reschedule")
+        g = ctx.cfg(f)
+        q = f"{QC}._reschedule"
+        sch = gfind(g, lambda x: _is_call(x, "self._scheduler"))
+        ctx.check(len(sch) == 1, "reschedule/schedules-tick", q, f"{len(sch)} scheduler call sites in _reschedule (one expected)")
+        for n in sch:
+            key = ctx.construct(q, g.node(n).ast)
+            call = next(x for x in ast.walk(g.node(n).ast) if _is_call(x, "self._scheduler"))
+            ctx.check(len(call.args) == 1 and src(call.args[0]) == "self._tick", "reschedule/schedules-tick", key, "the scheduler is not given self._tick")
+            ctx.check(any(self_attr(t, "_delayedCall") and v is call for t, v in assign_pairs(g.node(n).ast)), "reschedule/remembers-call", key,
+                      "the scheduled call is not remembered in _delayedCall: a second tick is scheduled for every added task and stop() cannot cancel")
+            ctx.check(guarded_none(g, n, "self._delayedCall"), "reschedule/single-pending-tick", key, "a tick is scheduled although one is already pending (ticks multiply)")
+            ctx.check(g.guarded(n, lambda e: src(e) == "self._tasks", True), "reschedule/only-with-work", key, "a tick is scheduled with no runnable task (busy loop)")
+        # every condition that blocks scheduling is one of: not started (remembered), tick pending, no tasks
+        started = g.ids(lambda n: n.kind == "test" and src(n.ast) == "self._started")
+        for t in started:
+            s = [d for d, l in g.succ[t] if l == "F"]
+            rem = g.ids(lambda n: n.kind == "stmt" and any(self_attr(tt, "_mustScheduleOnStart") and is_const(v, True) for tt, v in assign_pairs(n.ast)))
+            w = must_pass(g, s, rem, exc=False)
+            ctx.check(bool(rem) and w is None, "reschedule/deferred-until-start", q, "a reschedule requested before start() is forgotten (tasks added before start() never run)",
+                      witness=g.describe(w))
+        extra = [t for t in g.ids(lambda n: n.kind == "test") if src(g.node(t).ast) not in ("self._started", "self._tasks") and is_none_test(g.node(t).ast, "self._delayedCall") is None]
+        ctx.check(not extra, "reschedule/no-extra-condition", q, "scheduling a tick depends on an additional condition: " + ", ".join(src(g.node(t).ast) for t in extra))
+        f = cm["start"]
+        g = ctx.cfg(f)
+        q = f"{QC}.start"
+        res = gfind(g, lambda x: _is_call(x, "self._reschedule"))
+        ms = g.ids(lambda n: n.kind == "test" and src(n.ast) == "self._mustScheduleOnStart")
+        for t in ms:
+            s = [d for d, l in g.succ[t] if l == "T"]
+            w = must_pass(g, s, res, exc=False)
+            ctx.check(bool(res) and w is None, "reschedule/deferred-until-start", q, "start() does not perform the reschedule that was postponed", witness=g.describe(w))
+        stt = g.ids(lambda n: n.kind == "stmt" and any(self_attr(t, "_started") and is_const(v, True) for t, v in assign_pairs(n.ast)))
+        w = g.must_precede(stt, res) if res else None
+        ctx.check(bool(stt) and w is None, "reschedule/deferred-until-start", q + " | self._started", "start() reschedules before marking the cooperator started (nothing is scheduled)",
                   witness=g.describe(w))
-    for n in comps:
-        w = g.must_precede(apps, [n]) if apps else [g.entry]
-        ctx.check(w is None, "add/joins-runnable-set", ctx.construct(q, g.node(n).ast), "the task is completed before it was put in the list _completeWith removes it from (ValueError)",
-                  witness=g.describe(w))
-    for n in comps:
-        ctx.check(g.guarded(n, lambda e: src(e) == "self._stopped", True), "add/stopped-rejects", ctx.construct(q, g.node(n).ast),
-                  "a task is completed with SchedulerStopped although the cooperator is not stopped")
-    st_t = g.ids(lambda n: n.kind == "test" and src(n.ast) == "self._stopped")
-    for t in st_t:
-        s = [d for d, l in g.succ[t] if l == "T"]
-        w = must_pass(g, s, comps, exc=False)
-        ctx.check(bool(comps) and w is None, "add/stopped-rejects", q + " | <stopped>", "a task added to a stopped cooperator is left pending forever (whenDone never fires)",
-                  witness=g.describe(w))
-
-    f = cm["_removeTask"]
-    ctx.functions.add(f"{TASK}:Cooperator._removeTask")
-    g = ctx.cfg(f)
-    q = f"{QC}._removeTask"
-    p = f.args.args[1].arg
-    rm = gfind(g, lambda x: _is_call(x, "self._tasks.remove") and len(x.args) == 1 and src(x.args[0]) == p)
-    w = must_pass(g, [g.entry], rm, exc=False)
-    ctx.check(bool(rm) and w is None, "remove/leaves-runnable-set", q, "_removeTask can return with the task still runnable", witness=g.describe(w))
-
-    for mname in ("_removeTask", "stop"):
-        fx = cm[mname]
-        gx = ctx.cfg(fx)
-        qx = f"{QC}.{mname}"
-        canc = gfind(gx, lambda x: _is_call(x, "self._delayedCall.cancel"))
-        clr = gx.ids(lambda n: n.kind == "stmt" and any(self_attr(t, "_delayedCall") and is_const(v, None) for t, v in assign_pairs(n.ast)))
-        for n in canc:
-            key = ctx.construct(qx, gx.node(n).ast)
-            if mname == "_removeTask":
-                ctx.check(gx.guarded(n, lambda e: src(e) == "self._tasks", False), "remove/cancel-only-when-idle", key,
-                          "removing one task cancels the pending tick although runnable tasks remain: they are starved until another task is added")
-            w = must_pass(gx, [n], clr, exc=False)
-            ctx.check(bool(clr) and w is None, "tick/cancelled-call-forgotten", key,
-                      "the cancelled tick stays in _delayedCall: _reschedule() believes a tick is pending and never schedules again (every later task starves)",
-                      witness=gx.describe(w))
-
-    f = cm["_tasksWhileNotStopped"]
-    ctx.functions.add(f"{TASK}:Cooperator._tasksWhileNotStopped")
-    g = ctx.cfg(f)
-    q = f"{QC}._tasksWhileNotStopped"
-    heads = g.ids(lambda n: n.kind == "for" and src(n.ast.iter) == "self._metarator")
-    ctx.check(len(heads) == 1, "fair/round-robin-iterator", q, "the walk over the runnable set no longer consumes the persistent iterator self._metarator "
-              "(restarting from the head each tick starves the tasks at the tail whenever the predicate ends the tick early)")
-    renew = g.ids(lambda n: n.kind == "stmt" and any(self_attr(t, "_metarator") for t, v in assign_pairs(n.ast)))
-    for n in renew:
-        key = ctx.construct(q, g.node(n).ast)
-        v = next(v for t, v in assign_pairs(g.node(n).ast) if self_attr(t, "_metarator"))
-        ctx.check(isinstance(v, ast.Call) and dotted(v.func) == "iter" and len(v.args) == 1 and src(v.args[0]) == "self._tasks", "fair/round-robin-iterator", key,
-                  "the round-robin iterator is not built over the live runnable list (paused/finished tasks would be advanced, new ones missed)")
-        preds = [(s, l) for s, l in g.pred[n] if l != "exc"]
-        ok = bool(heads) and bool(preds) and all(s in heads and l == "done" for s, l in preds)
-        ctx.check(ok, "fair/renew-only-when-exhausted", key,
-                  "the round-robin iterator is renewed before the previous round is exhausted: tasks late in the list are starved when ticks end early")
-    ctx.check(bool(renew), "fair/renew-only-when-exhausted", q + " | <renew>", "the round-robin iterator is never renewed: after one round no task is advanced")
-    for other in [a for a in acc if a.attr == "_metarator" and a.func not in ("Cooperator.__init__", "Cooperator._tasksWhileNotStopped")]:
-        ctx.violation("fair/renew-only-when-exhausted", ctx.construct(f"twisted.internet.task.{other.func}", other.node), "the round-robin iterator is reset outside the walk")
-    yields = gfind(g, lambda x: isinstance(x, ast.Yield))
-    tterm = [t for t in g.ids(lambda n: n.kind == "test" and isinstance(n.ast, ast.Call))]
-    for h in heads:
-        loopvar = src(g.node(h).ast.target)
-        ctx.check(bool(yields) and all(src(y.value) == loopvar for n in yields for y in ast.walk(g.node(n).ast) if isinstance(y, ast.Yield)), "fair/yields-runnable", q,
-                  "the generator does not yield the task taken from the round-robin iterator")
-        it = [d for d, l in g.succ[h] if l == "iter"]
-        it0 = [n for n in it if n not in yields]
-        w = g.path(it0, tterm, avoid=set(yields) | {h}) if tterm and it0 else None
-        ctx.check(w is None, "fair/progress-before-predicate", q + " | <termination predicate>",
-                  "the termination predicate is consulted before a task has been advanced in this round: with a predicate that is already true "
-                  "(a tick started late) no task ever makes progress", witness=g.describe(w))
-        w = must_pass(g, it, yields, to=[h, g.exit], exc=False)
-        ctx.check(w is None, "fair/yields-runnable", q + " | <every element>", "a task taken from the iterator can be skipped without being advanced", witness=g.describe(w))
-    wl = g.ids(lambda n: n.kind == "test" and src(n.ast) == "self._tasks")
-    ctx.check(bool(wl), "fair/stops-when-empty", q, "the walk does not terminate when the runnable set is empty (busy loop) or never starts")
-
-    f = cm["_tick"]
-    ctx.functions.add(f"{TASK}:Cooperator._tick")
-    g = ctx.cfg(f)
-    q = f"{QC}._tick"
-    clr = g.ids(lambda n: n.kind == "stmt" and any(self_attr(t, "_delayedCall") and is_const(v, None) for t, v in assign_pairs(n.ast)))
-    res = gfind(g, lambda x: _is_call(x, "self._reschedule"))
-    w = must_pass(g, [g.entry], res, exc=False)
-    ctx.check(bool(res) and w is None, "tick/reschedules", q, "a tick can end without rescheduling: remaining runnable tasks are starved", witness=g.describe(w))
-    w = g.must_precede(clr, res) if clr else [g.entry]
-    ctx.check(bool(clr) and w is None, "tick/forgets-spent-call", q,
-              "_delayedCall still refers to the spent call when _reschedule() runs: it believes a tick is pending and schedules nothing (all tasks starve)",
-              witness=g.describe(w))
-    work = gfind(g, lambda x: isinstance(x, ast.Call) and call_attr(x) == "_oneWorkUnit")
-    w = g.must_precede(clr, work) if clr and work else None
-    ctx.check(w is None, "tick/forgets-spent-call", q + " | <before work>",
-              "_delayedCall is cleared after the work units: a task removed during the tick cancels the spent call (AlreadyCalled) / a pause-resume inside the tick "
-              "cannot schedule", witness=g.describe(w))
-
-    f = cm["_reschedule"]
-    ctx.functions.add(f"{TASK}:Cooperator._reschedule")
-    g = ctx.cfg(f)
-    q = f"{QC}._reschedule"
-    sch = gfind(g, lambda x: _is_call(x, "self._scheduler"))
-    ctx.check(len(sch) == 1, "reschedule/schedules-tick", q, f"{len(sch)} scheduler call sites in _reschedule (one expected)")
-    for n in sch:
-        key = ctx.construct(q, g.node(n).ast)
-        call = next(x for x in ast.walk(g.node(n).ast) if _is_call(x, "self._scheduler"))
-        ctx.check(len(call.args) == 1 and src(call.args[0]) == "self._tick", "reschedule/schedules-tick", key, "the scheduler is not given self._tick")
-        ctx.check(any(self_attr(t, "_delayedCall") and v is call for t, v in assign_pairs(g.node(n).ast)), "reschedule/remembers-call", key,
-                  "the scheduled call is not remembered in _delayedCall: a second tick is scheduled for every added task and stop() cannot cancel")
-        ctx.check(guarded_none(g, n, "self._delayedCall"), "reschedule/single-pending-tick", key, "a tick is scheduled although one is already pending (ticks multiply)")
-        ctx.check(g.guarded(n, lambda e: src(e) == "self._tasks", True), "reschedule/only-with-work", key, "a tick is scheduled with no runnable task (busy loop)")
-    # every condition that blocks scheduling is one of: not started (remembered), tick pending, no tasks
-    started = g.ids(lambda n: n.kind == "test" and src(n.ast) == "self._started")
-    for t in started:
-        s = [d for d, l in g.succ[t] if l == "F"]
-        rem = g.ids(lambda n: n.kind == "stmt" and any(self_attr(tt, "_mustScheduleOnStart") and is_const(v, True) for tt, v in assign_pairs(n.ast)))
-        w = must_pass(g, s, rem, exc=False)
-        ctx.check(bool(rem) and w is None, "reschedule/deferred-until-start", q, "a reschedule requested before start() is forgotten (tasks added before start() never run)",
-                  witness=g.describe(w))
-    extra = [t for t in g.ids(lambda n: n.kind == "test") if src(g.node(t).ast) not in ("self._started", "self._tasks") and is_none_test(g.node(t).ast, "self._delayedCall") is None]
-    ctx.check(not extra, "reschedule/no-extra-condition", q, "scheduling a tick depends on an additional condition: " + ", ".join(src(g.node(t).ast) for t in extra))
-    f = cm["start"]
-    g = ctx.cfg(f)
-    q = f"{QC}.start"
-    res = gfind(g, lambda x: _is_call(x, "self._reschedule"))
-    ms = g.ids(lambda n: n.kind == "test" and src(n.ast) == "self._mustScheduleOnStart")
-    for t in ms:
-        s = [d for d, l in g.succ[t] if l == "T"]
-        w = must_pass(g, s, res, exc=False)
-        ctx.check(bool(res) and w is None, "reschedule/deferred-until-start", q, "start() does not perform the reschedule that was postponed", witness=g.describe(w))
-    stt = g.ids(lambda n: n.kind == "stmt" and any(self_attr(t, "_started") and is_const(v, True) for t, v in assign_pairs(n.ast)))
-    w = g.must_precede(stt, res) if res else None
-    ctx.check(bool(stt) and w is None, "reschedule/deferred-until-start", q + " | self._started", "start() reschedules before marking the cooperator started (nothing is scheduled)",
-              witness=g.describe(w))
 
     # ---- loops that must visit every element must not iterate the list their body mutates ----------------------------------
-    nloops = 0
-    for cname, qn, fn in funcs:
-        if isinstance(fn, ast.Lambda):
-            continue
-        for loop in [n for n in body_walk(fn) if isinstance(n, ast.For)]:
-            if _snapshot_of(loop.iter, "self._tasks"):
+    with section(ctx, 'loops that must visit every element must not iterate the list their body mutates'):
+        nloops = 0
+        for cname, qn, fn in funcs:
+            if isinstance(fn, ast.Lambda):
+                continue
+            for loop in [n for n in body_walk(fn) if isinstance(n, ast.For)]:
+                if _snapshot_of(loop.iter, "self._tasks"):
+                    nloops += 1
+                    ctx.ok("iterate/not-while-mutating", ctx.construct(f"twisted.internet.task.{qn}", f"for {src(loop.target)} in {src(loop.iter)}"), "snapshot")
+                    continue
+                if src(loop.iter) != "self._tasks":
+                    continue
                 nloops += 1
-                ctx.ok("iterate/not-while-mutating", ctx.construct(f"twisted.internet.task.{qn}", f"for {src(loop.target)} in {src(loop.iter)}"), "snapshot")
-                continue
-            if src(loop.iter) != "self._tasks":
-                continue
-            nloops += 1
-            calls = [c for st in loop.body for c in ast.walk(st) if isinstance(c, ast.Call)]
-            chain = may_mutate([task, coop], calls, "_tasks", kinds={"remove", "append", "pop_first", "pop_last", "pop_key", "insert", "insert0", "clear", "del-prefix", "delitem", "extend"})
-            ctx.check(chain is None, "iterate/not-while-mutating", ctx.construct(f"twisted.internet.task.{qn}", f"for {src(loop.target)} in {src(loop.iter)}"),
-                      "the loop iterates the live runnable list while its body removes from it (" + " -> ".join(chain or []) + "): every other task is skipped; "
-                      "the skipped tasks are never completed, their whenDone/coiterate Deferreds never fire")
+                calls = [c for st in loop.body for c in ast.walk(st) if isinstance(c, ast.Call)]
+                chain = may_mutate([task, coop], calls, "_tasks", kinds={"remove", "append", "pop_first", "pop_last", "pop_key", "insert", "insert0", "clear", "del-prefix", "delitem", "extend"})
+                ctx.check(chain is None, "iterate/not-while-mutating", ctx.construct(f"twisted.internet.task.{qn}", f"for {src(loop.target)} in {src(loop.iter)}"),
+                          "the loop iterates the live runnable list while its body removes from it (" + " -> ".join(chain or []) + "): every other task is skipped; "
+                          "the skipped tasks are never completed, their whenDone/coiterate Deferreds never fire")
 
-    f = cm["stop"]
-    ctx.functions.add(f"{TASK}:Cooperator.stop")
-    g = ctx.cfg(f)
-    q = f"{QC}.stop"
-    comps = gfind(g, lambda x: isinstance(x, ast.Call) and call_attr(x) == "_completeWith")
-    flag = g.ids(lambda n: n.kind == "stmt" and any(self_attr(t, "_stopped") and is_const(v, True) for t, v in assign_pairs(n.ast)))
-    w = g.must_precede(flag, comps) if comps else None
-    ctx.check(bool(flag) and bool(comps) and w is None, "stop/flag-before-completions", q,
-              "tasks are completed before the cooperator is marked stopped: a whenDone callback adding a task gets it scheduled on a stopped cooperator",
-              witness=g.describe(w))
-    canc = gfind(g, lambda x: _is_call(x, "self._delayedCall.cancel"))
-    ctx.check(bool(canc) and all(guarded_not_none(g, n, "self._delayedCall") for n in canc), "stop/cancels-tick", q, "stop() does not cancel the pending tick (only when one is pending)")
+    # ---- Cooperator.stop --------------------
+    with section(ctx, 'Cooperator.stop'):
+        f = cm["stop"]
+        ctx.functions.add(f"{TASK}:Cooperator.stop")
+        g = ctx.cfg(f)
+        q = f"{QC}.stop"
+        comps = gfind(g, lambda x: isinstance(x, ast.Call) and call_attr(x) == "_completeWith")
+        flag = g.ids(lambda n: n.kind == "stmt" and any(self_attr(t, "_stopped") and is_const(v, True) for t, v in assign_pairs(n.ast)))
+        w = g.must_precede(flag, comps) if comps else None
+        ctx.check(bool(flag) and bool(comps) and w is None, "stop/flag-before-completions", q,
+                  "tasks are completed before the cooperator is marked stopped: a whenDone callback adding a task gets it scheduled on a stopped cooperator",
+                  witness=g.describe(w))
+        canc = gfind(g, lambda x: _is_call(x, "self._delayedCall.cancel"))
+        ctx.check(bool(canc) and all(guarded_not_none(g, n, "self._delayedCall") for n in canc), "stop/cancels-tick", q, "stop() does not cancel the pending tick (only when one is pending)")
 
     # ---- coiterate ----------------------------------------------------------------------------------------------------------
-    f = cm["coiterate"]
-    ctx.functions.add(f"{TASK}:Cooperator.coiterate")
-    q = f"{QC}.coiterate"
-    chains = [c for c in body_walk(f) if isinstance(c, ast.Call) and call_attr(c) == "chainDeferred"]
-    wd_names = {t.id for st in body_walk(f) for t, v in assign_pairs(st) if isinstance(t, ast.Name) and isinstance(v, ast.Call) and call_attr(v) == "whenDone"}
-    rets = [r for r in body_walk(f) if isinstance(r, ast.Return)]
-    ok = bool(chains) and bool(rets)
-    for r in rets:
-        ok = ok and any(len(c.args) == 1 and src(c.args[0]) == src(r.value) and
-                        ((isinstance(c.func.value, ast.Name) and c.func.value.id in wd_names) or (isinstance(c.func.value, ast.Call) and call_attr(c.func.value) == "whenDone"))
-                        for c in chains)
-    ctx.check(ok, "coiterate/chained-to-whenDone", q, "the Deferred returned by coiterate() is not the one chained to the task's whenDone(): it never fires")
-    g = ctx.cfg(f)
-    cn = gfind(g, lambda x: isinstance(x, ast.Call) and call_attr(x) == "chainDeferred")
-    w = must_pass(g, [g.entry], cn, exc=False)
-    ctx.check(w is None, "coiterate/chained-to-whenDone", q + " | <all paths>", "coiterate() can return without chaining", witness=g.describe(w))
+    with section(ctx, 'coiterate'):
+        f = cm["coiterate"]
+        ctx.functions.add(f"{TASK}:Cooperator.coiterate")
+        q = f"{QC}.coiterate"
+        chains = [c for c in body_walk(f) if isinstance(c, ast.Call) and call_attr(c) == "chainDeferred"]
+        wd_names = {t.id for st in body_walk(f) for t, v in assign_pairs(st) if isinstance(t, ast.Name) and isinstance(v, ast.Call) and call_attr(v) == "whenDone"}
+        rets = [r for r in body_walk(f) if isinstance(r, ast.Return)]
+        ok = bool(chains) and bool(rets)
+        for r in rets:
+            ok = ok and any(len(c.args) == 1 and src(c.args[0]) == src(r.value) and
+                            ((isinstance(c.func.value, ast.Name) and c.func.value.id in wd_names) or (isinstance(c.func.value, ast.Call) and call_attr(c.func.value) == "whenDone"))
+                            for c in chains)
+        ctx.check(ok, "coiterate/chained-to-whenDone", q, "the Deferred returned by coiterate() is not the one chained to the task's whenDone(): it never fires")
+        g = ctx.cfg(f)
+        cn = gfind(g, lambda x: isinstance(x, ast.Call) and call_attr(x) == "chainDeferred")
+        w = must_pass(g, [g.entry], cn, exc=False)
+        ctx.check(w is None, "coiterate/chained-to-whenDone", q + " | <all paths>", "coiterate() can return without chaining", witness=g.describe(w))
 
 
 def is_const_num(node, value):
